@@ -18,7 +18,12 @@ func main() {
 	out := flag.String("out", "", "output directory")
 	replay := flag.String("replay", "", "replay file")
 	cs := flag.Int("childstart", -1, "internal: sandbox child, first case index to execute")
+	wit := flag.String("witness", "", "internal: run one crashing witness in this process")
 	flag.Parse()
+	if *wit != "" {
+		runWitnessChild(*wit)
+		return
+	}
 	childStart = *cs
 	if *out == "" {
 		fmt.Fprintln(os.Stderr, "need -out")
@@ -54,9 +59,18 @@ func main() {
 		runBuild(ctx)
 	case "C04":
 		runArbitrary(ctx)
+	case "C15":
+		runC15(ctx)
+	case "C16":
+		runC16(ctx)
+	case "C13":
+		runC13(ctx)
+	case "C14":
+		runC14(ctx)
 	default:
 		fmt.Fprintln(os.Stderr, "unknown property", *prop)
 		os.Exit(2)
 	}
+	ctx.runWitnesses()
 	ctx.finish()
 }
